@@ -502,7 +502,13 @@ func (store dbStore) LoadValidators(height int64) (*types.ValidatorSet, error) {
 			return nil, err
 		}
 
-		vs.IncrementProposerPriority(tmmath.SafeConvertInt32(height - lastStoredHeight)) // mutate
+		// Replay the rotation the way the chain did it, one height at a time: a
+		// single IncrementProposerPriority(n) rescales and centres the priorities
+		// once, n calls of IncrementProposerPriority(1) do so n times, and the
+		// results differ (after a validator joined or left).
+		for i := tmmath.SafeConvertInt32(height - lastStoredHeight); i > 0; i-- {
+			vs.IncrementProposerPriority(1) // mutate
+		}
 		vi2, err := vs.ToProto()
 		if err != nil {
 			return nil, err
